@@ -45,6 +45,7 @@ def gen_history(streams, tier, profile):
     styles = profile.get("styles", ["eval", "eval", "call"])
     pla = profile.get("p_load_after", 0.0)
     seen_paths = []
+    two_procs = [False]
 
     def loads_after():
         for p in gen.all_paths(cur):
@@ -53,7 +54,10 @@ def gen_history(streams, tier, profile):
         if pla and hrng.random() < pla:
             k = hrng.randint(1, 4)
             for p in hrng.sample(seen_paths, min(k, len(seen_paths))):
-                ops.append({"op": "load", "path": p, "fresh": hrng.random() < 0.4, "file": hrng.random() < 0.5})
+                lop = {"op": "load", "path": p, "fresh": hrng.random() < 0.4, "file": hrng.random() < 0.5}
+                if not lop["fresh"] and two_procs[0] and hrng.random() < 0.4:
+                    lop["proc"] = 1       # the long-running second process (it may run an older version of the code)
+                ops.append(lop)
 
     ops.append({"op": "eval", "entry": hrng.choice(ents), "style": hrng.choice(styles)})
     loads_after()
@@ -63,6 +67,10 @@ def gen_history(streams, tier, profile):
     total = sum(weights.values())
     p2 = profile.get("p_proc2", 0.0)
     two = p2 > 0 and cfg.random() < p2      # a second, long-running process next to the main one
+    two_procs[0] = two
+    if two and store == {"kind": "local"} and "local+cache" in profile.get("stores", ("local+cache",)) and cfg.random() < 0.5:
+        # two live processes on one directory, each with its own object cache: the coherence case of the LRU wrapper
+        store = {"kind": "local", "cache": cfg.choice([1, 2, 3, 10, True, -1])}
 
     def pick():
         r = hrng.random() * total
@@ -80,6 +88,9 @@ def gen_history(streams, tier, profile):
         if k == "eval":
             ents = gen.entries(cur)
             op = {"op": "eval", "entry": hrng.choice(ents), "style": hrng.choice(styles)}
+            # come back to the first entry point: what was stored before an edit is then asked for again
+            if ops[0].get("entry") in ents and hrng.random() < (0.7 if (feat.get("layout") or feat.get("vardefaults")) else 0.3):
+                op["entry"] = ops[0]["entry"]
             if profile.get("p_driver_keep", 0.0) and hrng.random() < profile["p_driver_keep"]:
                 kes = gen.keep_entries(cur)
                 if kes:
